@@ -79,6 +79,34 @@ fn gamma(a: f64) -> f64 {
     }
 }
 
+/// Exact numeric comparison of two Numbers (None when a NaN is involved): Integers are compared as
+/// integers, and an Integer is compared with a Float without rounding the Integer to a double.
+fn compare(a: &Number, b: &Number) -> Option<std::cmp::Ordering> {
+    use std::cmp::Ordering;
+    fn int_float(i: i64, f: f64) -> Option<Ordering> {
+        if f.is_nan() {
+            return None;
+        }
+        if f >= 9223372036854775808.0 {
+            return Some(Ordering::Less);
+        }
+        if f < -9223372036854775808.0 {
+            return Some(Ordering::Greater);
+        }
+        let whole = f.trunc();
+        match i.cmp(&(whole as i64)) {
+            Ordering::Equal => 0.0_f64.partial_cmp(&(f - whole)),
+            other => Some(other),
+        }
+    }
+    match (a, b) {
+        (Number::Integer(x), Number::Integer(y)) => Some(x.cmp(y)),
+        (Number::Float(x), Number::Float(y)) => x.partial_cmp(y),
+        (Number::Integer(x), Number::Float(y)) => int_float(*x, *y),
+        (Number::Float(x), Number::Integer(y)) => int_float(*y, *x).map(Ordering::reverse),
+    }
+}
+
 fn float_factorial(x: f64) -> f64 {
     if x >= 0.0 {
         if (x % 1.0) > 0.0 {
@@ -539,15 +567,7 @@ pub fn eval(expr: Node) -> Result<Number, Box<dyn error::Error>> {
                     let r = eval(arg)?;
                     match result {
                         Some(l) => {
-                            let lf64 = match l.clone() {
-                                Number::Float(f) => f,
-                                Number::Integer(i) => i as f64,
-                            };
-                            let rf64 = match r.clone() {
-                                Number::Float(f) => f,
-                                Number::Integer(i) => i as f64,
-                            };
-                            if lf64 < rf64 {
+                            if compare(&l, &r) == Some(std::cmp::Ordering::Less) {
                                 result = Some(l);
                             } else {
                                 result = Some(r);
@@ -573,15 +593,7 @@ pub fn eval(expr: Node) -> Result<Number, Box<dyn error::Error>> {
                     let r = eval(arg)?;
                     match result {
                         Some(l) => {
-                            let lf64 = match l.clone() {
-                                Number::Float(f) => f,
-                                Number::Integer(i) => i as f64,
-                            };
-                            let rf64 = match r.clone() {
-                                Number::Float(f) => f,
-                                Number::Integer(i) => i as f64,
-                            };
-                            if lf64 > rf64 {
+                            if compare(&l, &r) == Some(std::cmp::Ordering::Greater) {
                                 result = Some(l);
                             } else {
                                 result = Some(r);
@@ -624,17 +636,7 @@ pub fn eval(expr: Node) -> Result<Number, Box<dyn error::Error>> {
             {
                 return Ok(Number::Float(f64::NAN));
             }
-            results.sort_by(|a, b| {
-                let a = match a {
-                    Number::Integer(x) => (*x) as f64,
-                    Number::Float(x) => *x,
-                };
-                let b = match b {
-                    Number::Integer(x) => (*x) as f64,
-                    Number::Float(x) => *x,
-                };
-                a.total_cmp(&b)
-            });
+            results.sort_by(|a, b| compare(a, b).unwrap_or(std::cmp::Ordering::Equal));
             let len = results.len();
             if len % 2 == 0 {
                 let a = results[len >> 1].clone();
